@@ -10,7 +10,12 @@ Inductive case_C02 : Type :=
     (* read the stream, write every message, read the written bytes, write again *)
 | CMsg (rt : N) (ecu : char4) (ts htyp mcnt len : N) (ext : option (N * N * char4 * char4)) (payload : list (N * list N))
     (* DltMessage built field by field; to_write *)
-| CExport (specs : list (N * N * N * bool * N)).
+| CExport (specs : list (N * N * N * bool * N))
+| CExportRuns (t0 : N) (runs : list (N * N * bool)).
+    (* a large file described run-length: run (count, frame size, with timestamp) = count consecutive messages of
+       that many bytes each (storage header + standard header [+ timestamp] + payload); message i (numbered through the
+       file) of ECU1 is received at t0 + i s with timestamp i s, mcnt = i mod 256, payload = LE32 of i (cut to the payload
+       length) followed by 0x5a bytes.  Same commands as CExport. *)
     (* (ecu number, reception time us, timestamp dms, timestamp flag, kind): message k = MSpec::build(k) of
        harness/src/lcgen.rs; the file in.dlt = to_write of every message; `adlt convert -o a.dlt in.dlt`,
        `adlt convert -o b.dlt a.dlt` (reader -> lifecycle stage -> writer, Dlt/WritePipeline.v) *)
@@ -30,6 +35,23 @@ Definition spec_msg (i : N) (s : N * N * N * bool * N) : msg :=
      m_ext := x; m_payload := p |}.
 Fixpoint spec_msgs (i : N) (l : list (N * N * N * bool * N)) : list msg :=
   match l with [] => [] | s :: r => spec_msg i s :: spec_msgs (i + 1) r end.
+
+Definition run_msg (t0 i size : N) (ts : bool) : msg :=
+  let p := N.to_nat (size - (if ts then 24 else 20)) in
+  {| m_index := i; m_reception_us := t0 + i * 1000000; m_ecu := (69, 67, 85, 49); m_timestamp := if ts then i * 10000 else 0;
+     m_std := {| htyp := if ts then 48 else 32; mcnt := i mod 256; len := size - 16 |}; m_ext := None;
+     m_payload := firstn p (le32_bytes i ++ repeat 90 (p - 4)) |}.
+Fixpoint run_msgs_n (t0 i size : N) (ts : bool) (k : nat) : list msg :=
+  match k with O => [] | S k' => run_msg t0 i size ts :: run_msgs_n t0 (i + 1) size ts k' end.
+Fixpoint runs_msgs (t0 i : N) (runs : list (N * N * bool)) : list msg :=
+  match runs with
+  | [] => []
+  | (c, size, ts) :: r => run_msgs_n t0 i size ts (N.to_nat c) ++ runs_msgs t0 (i + c) r
+  end.
+(* the message counters are 0, 1, 2, ... mod 256 *)
+Fixpoint mcnt_seq (i : N) (ms : list msg) : bool :=
+  match ms with [] => true | m :: r => (mcnt (m_std m) =? i mod 256) && mcnt_seq (i + 1) r end.
+Definition o_bigfile (l : bytes) : otree := T [L (blen l); L (cksum2 l)].
 
 (* a file: length + checksum *)
 Definition o_file (l : bytes) : otree := T [L (blen l); L (cksum l)].
@@ -53,6 +75,24 @@ Definition o_wres (r : res wres) : otree :=
   | Panic _ => T [L 1]
   | OutOfFuel => T [L 2]
   end.
+
+(* observation of the large-file export: input, export, number of messages in the export, their counters consecutive,
+   nothing left over, "export of the export == export" (when the export is the input byte for byte the second command
+   repeats the first on the same bytes) *)
+Definition export_obs_slow (inp : bytes) : otree :=
+  match convert_o inp with
+  | Ok (WOk a) =>
+      T [L 8; o_bigfile inp; o_bigfile a;
+         match run_iter 0 a with
+         | Ok (ms, _, rest) => T [L (N.of_nat (length ms)); ob (mcnt_seq 0 ms); L (blen rest)]
+         | _ => L 1
+         end;
+         if bytes_eqb a inp then L 1
+         else match convert_o a with Ok (WOk b) => ob (bytes_eqb a b) | _ => L 2 end]
+  | _ => T [L 9; o_bigfile inp]
+  end.
+Definition export_obs_fast (ms : list msg) (inp : bytes) : otree :=
+  T [L 8; o_bigfile inp; o_bigfile inp; T [L (N.of_nat (length ms)); ob (mcnt_seq 0 ms); L 0]; L 1].
 
 Definition run_C02 (c : case_C02) : otree :=
   match c with
@@ -93,6 +133,16 @@ Definition run_C02 (c : case_C02) : otree :=
                  match convert_o a with Ok (WOk b) => ob (bytes_eqb a b) | _ => L 2 end]
           | _ => T [L 6; o_file inp]
           end
+      | _ => T [L 7]
+      end
+  | CExportRuns t0 runs =>
+      let ms := runs_msgs t0 0 runs in
+      match write_all ms with
+      | Ok (WOk inp) =>
+          (* messages satisfying the invariant of parsed messages: the file is in the writer's normal form and the
+             evaluation below yields export_obs_fast (Dlt/WriteExecProofs.v: export_obs_fast_sound; run_iter is quadratic
+             in the file size under vm_compute, the files of this family have up to 1.5 MB) *)
+          if forallb wf_msgb ms && (N.of_nat (length ms) <=? u32max) then export_obs_fast ms inp else export_obs_slow inp
       | _ => T [L 7]
       end
   end.
